@@ -296,10 +296,10 @@ def check_property(prop, tier='quick', only=None, verbose=True):
                                  wmod='w_' + jid, hmod=hmodname, hfn=h['fn'],
                                  call_args=call_args, vec=vec, workdir=workdir,
                                  verif=VERIF, timeout=120, path_timeout=120))
-        # thorough tier: a wall-clock budget (VERIF_BUDGET_S, default 600 s; 0 = unlimited) after which no further slice is
+        # thorough tier: a wall-clock budget (VERIF_BUDGET_S, default 450 s; 0 = unlimited) after which no further slice is
         # started; slices that were not started are reported as not explored (never as confirmed).  The twins run first, the
         # slices of the harnesses are interleaved so that every harness gets its share of the budget.
-        budget = float(os.environ.get('VERIF_BUDGET_S', '0' if tier == 'quick' else '600') or 0)
+        budget = float(os.environ.get('VERIF_BUDGET_S', '0' if tier == 'quick' else '450') or 0)
         DEADLINE[0] = (t_start + budget) if budget > 0 else None
         if DEADLINE[0] is None:
             jobs.sort(key=lambda j: (j['kind'] != 'verify', -j['timeout']))          # longest first
